@@ -26,9 +26,23 @@ def candidates(P, Rr, metric, ndim):
     return out
 
 
+TOL = 1e-9
+
+
+def near(a, b):
+    return abs(a - b) <= TOL * max(1.0, abs(a), abs(b))
+
+
 def unique_scores(cands):
-    s = [c[0] for c in cands]
-    return len(set(s)) == len(s)
+    """no two candidate scores equal -- up to floating-point noise: mathematically equal scores computed along different routes may
+    differ in the last bits, and then the documented procedure does not determine the order (assumption A-FP)"""
+    s = sorted(c[0] for c in cands)
+    return all(not near(a, b) for a, b in zip(s, s[1:]))
+
+
+def meets(metric, s, t):
+    """score s meets threshold t; a score equal to the threshold up to floating-point noise meets it"""
+    return near(s, t) or SM.beats(metric, s, t)
 
 
 def evaluate(pred, ref, input_type, backend=None, matching_metric="IOU", matching_threshold=0.5, metrics=("DSC", "IOU", "ASSD", "RVD"),
@@ -45,13 +59,13 @@ def evaluate(pred, ref, input_type, backend=None, matching_metric="IOU", matchin
         unique = unique_scores(cands)
         pairs, used_p, used_r = [], set(), set()
         for s, r, p in cands:
-            if SM.beats(matching_metric, s, matching_threshold) and p not in used_p and r not in used_r:
+            if meets(matching_metric, s, matching_threshold) and p not in used_p and r not in used_r:
                 pairs.append((r, p)); used_p.add(p); used_r.add(r)
     lists = {m: [] for m in metrics}
     tp = 0
     for r, p in pairs:
         vals = {m: SM.metric(m, Rr[r], P[p], nd) for m in metrics}
-        if decision_metric is not None and not SM.beats(decision_metric, float(vals[decision_metric]), decision_threshold):
+        if decision_metric is not None and not meets(decision_metric, float(vals[decision_metric]), decision_threshold):
             continue
         tp += 1
         for m in metrics:
